@@ -1,6 +1,8 @@
 """C04 -- Graphs are closed, acyclic and produce exactly the advertised keys (per expression class, symbolic sizes)."""
 from __future__ import annotations
 
+import numpy as np
+
 from symx.graph import grid
 from symx.oracle import AND, EQ
 
@@ -94,7 +96,7 @@ def _structure_ok(E, dsk, m, name, nb, tag):
     kernels have no symbolic-array meaning and are therefore not executed"""
     E.ensure(f"{tag}-keeps-the-root-name", m._name == name)
     want = {(name,) + g for g in grid(nb)}
-    have = {k for k in dsk if isinstance(k, tuple) and k and k[0] == name}
+    have = {k for k in dsk if isinstance(k, tuple) and k and k[0] == name and len(k) == 1 + len(nb) and all(isinstance(i, (int, np.integer)) for i in k[1:])}
     E.ensure(f"{tag}-key-grid", have == want)
     deps = {k: tuple(getattr(t, "dependencies", ()) or ()) for k, t in dsk.items()}
     missing = sorted({repr(d) for ds in deps.values() for d in ds if d not in dsk})
